@@ -451,7 +451,7 @@ func main() {
 	tfile = fset.File(f.Pos())
 	collect(f, *file)
 	// keep only mutants that still parse; number them in source order of collection (deterministic)
-	kept := sites[:0]
+	kept := make([]Site, 0, len(sites))
 	for _, s := range sites {
 		m := apply(s)
 		if _, err := parser.ParseFile(token.NewFileSet(), *file, m, 0); err != nil {
